@@ -121,6 +121,10 @@ pub enum Cer {
     Register { user: u8 },
     /// registration whose exclude list names held credential 0: must be refused, whatever the schedule
     RegisterExcluded,
+    /// assertion on held credential k that the authenticator refuses late: it asks for a PRF evaluation on an
+    /// hmac-secret authenticator while the credential holds no secrets (the refusal comes after the user prompt;
+    /// the counter may have been advanced by then)
+    AssertRefused { cred: u8 },
 }
 
 #[derive(Clone, Debug, Serialize, Deserialize, PartialEq, Eq, Hash)]
@@ -143,6 +147,8 @@ pub enum Done {
     Failed(u8),
     /// a registration that had to be refused as excluded was refused
     Excluded,
+    /// an assertion that was expected to be refused was refused
+    Refused,
 }
 
 pub struct RunOut {
@@ -170,7 +176,8 @@ where
     for (t, c) in cfg.cers.iter().enumerate() {
         let uv = ScriptedUv::new(UvScript { yields: cfg.uv_yields.get(t).copied().unwrap_or(0), ..UvScript::verified() });
         let store = Tagged { tag: t, inner: shared.clone(), log: log.clone() };
-        let mut auth: Authenticator<Tagged<W>, ScriptedUv> = cer::build_authenticator(store, uv, &AuthCfg { counter: true, ..Default::default() });
+        let hmac = if matches!(c, Cer::AssertRefused { .. }) { cer::HmacCfg::UvOnly } else { cer::HmacCfg::None };
+        let mut auth: Authenticator<Tagged<W>, ScriptedUv> = cer::build_authenticator(store, uv, &AuthCfg { counter: true, hmac, ..Default::default() });
         let fut: Fut<'static> = match c.clone() {
             Cer::Assert { cred, allow } => Box::pin(async move {
                 let req = get_assertion::Request {
@@ -185,6 +192,22 @@ where
                 match auth.get_assertion(req).await {
                     Ok(r) => Done::Asserted { cred: r.credential.map(|c| c.id.to_vec()).unwrap_or_default(), counter: u32::from_be_bytes(r.auth_data.to_vec()[33..37].try_into().unwrap()) },
                     Err(e) => Done::Failed(e.into()),
+                }
+            }),
+            Cer::AssertRefused { cred } => Box::pin(async move {
+                use passkey_types::ctap2::extensions::{AuthenticatorPrfInputs, AuthenticatorPrfValues};
+                let req = get_assertion::Request {
+                    rp_id: RP.into(),
+                    client_data_hash: vec![t as u8; 32].into(),
+                    allow_list: Some(vec![cer::descriptor(&held_id(if single { 0 } else { cred }))]),
+                    extensions: Some(get_assertion::ExtensionInputs { hmac_secret: None, prf: Some(AuthenticatorPrfInputs { eval: Some(AuthenticatorPrfValues { first: [9u8; 32], second: None }), eval_by_credential: None }) }),
+                    options: get_assertion::Options { rk: false, up: true, uv: true },
+                    pin_auth: None,
+                    pin_protocol: None,
+                };
+                match auth.get_assertion(req).await {
+                    Ok(r) => Done::Asserted { cred: r.credential.map(|c| c.id.to_vec()).unwrap_or_default(), counter: u32::from_be_bytes(r.auth_data.to_vec()[33..37].try_into().unwrap()) },
+                    Err(_) => Done::Refused,
                 }
             }),
             Cer::RegisterExcluded => Box::pin(async move {
@@ -347,6 +370,42 @@ pub fn judge(cfg: &Config, out: &RunOut) -> Result<Verdict, String> {
             continue;
         }
         let stored = out.final_store.iter().find(|(i, _)| i == &id).and_then(|(_, c)| *c);
+        // whatever the schedule: every write is a previously stored value plus one, so once an assertion was answered
+        // the stored counter is above its start value (a lost update under the known finding cannot undo that)
+        if stored.map_or(true, |s| s <= cfg.counter) {
+            return Err(format!("an assertion reported counter {} but the store holds {stored:?}, not above the start value {}", asserts[0].1, cfg.counter));
+        }
+        // refused assertions on the same credential (they may advance the counter by one each)
+        let single = cfg.cers.iter().any(|c| matches!(c, Cer::Assert { allow: false, .. }));
+        let refused: Vec<usize> = cfg.cers.iter().enumerate().filter(|(_, c)| matches!(c, Cer::AssertRefused { cred } if held_id(if single { 0 } else { *cred }) == id)).map(|(t, _)| t).collect();
+        if !refused.is_empty() {
+            let mut dup = false;
+            for i in 0..asserts.len() {
+                for j in i + 1..asserts.len() {
+                    if asserts[i].1 == asserts[j].1 {
+                        dup = true;
+                    }
+                }
+            }
+            let max = asserts.iter().map(|a| a.1).max().unwrap();
+            let all_windows: Vec<(usize, usize)> = asserts.iter().map(|a| a.0).chain(refused.iter().copied()).filter_map(|t| window(&out.events, t)).collect();
+            let any_overlap = (0..all_windows.len()).any(|i| (i + 1..all_windows.len()).any(|j| all_windows[i].0 < all_windows[j].1 && all_windows[j].0 < all_windows[i].1));
+            let s = stored.unwrap();
+            if s < max || s as u64 > cfg.counter as u64 + (asserts.len() + refused.len()) as u64 {
+                if any_overlap && s < max {
+                    verdict = Verdict::Known;
+                } else {
+                    return Err(format!("largest reported counter is {max}, the store holds {s} after {} answered and {} refused assertions from start value {} (no overlapping lookup..update windows: {})", asserts.len(), refused.len(), cfg.counter, !any_overlap));
+                }
+            }
+            if dup && !any_overlap {
+                return Err("assertions on the same credential report the same counter although no lookup..update windows overlap".into());
+            }
+            if dup {
+                verdict = Verdict::Known;
+            }
+            continue;
+        }
         let windows: Vec<Option<(usize, usize)>> = asserts.iter().map(|(t, _)| window(&out.events, *t)).collect();
         let overlap = |i: usize, j: usize| match (windows[i], windows[j]) {
             (Some(a), Some(b)) => a.0 < b.1 && b.0 < a.1,
@@ -383,6 +442,10 @@ pub fn judge(cfg: &Config, out: &RunOut) -> Result<Verdict, String> {
         }
     }
     for (t, r) in out.results.iter().enumerate() {
+        if let (Some(Done::Asserted { .. }), Some(Cer::AssertRefused { .. })) = (r, cfg.cers.get(t)) {
+            // not a violation of this property; counted so that the generator's intent can be checked
+            continue;
+        }
         if let Some(Done::Failed(code)) = r {
             return Err(format!("ceremony #{t} failed with status 0x{code:02X} although every request is satisfiable"));
         }
@@ -394,6 +457,12 @@ fn record(ctx: &mut Ctx, cfg: &Config, out: &RunOut, v: &Verdict) {
     ctx.eval();
     if out.switches >= 1 {
         ctx.nontrivial(&(cfg, &out.choices));
+    }
+    if out.results.iter().any(|r| matches!(r, Some(Done::Refused))) {
+        ctx.class("schedule/with a refused assertion");
+    }
+    if out.results.iter().zip(cfg.cers.iter()).any(|(r, c)| matches!((r, c), (Some(Done::Asserted { .. }), Cer::AssertRefused { .. }))) {
+        ctx.class("schedule/an assertion meant to be refused was answered");
     }
     let overlapping = matches!(v, Verdict::Known);
     ctx.class(if overlapping { "schedule/known-overlap-lost-update" } else if out.switches == 0 { "schedule/sequential" } else { "schedule/interleaved" });
@@ -458,13 +527,13 @@ fn check_generated(ctx: &mut Ctx, case: &(Config, Vec<u8>)) -> Result<(), String
 }
 
 fn config(max_tasks: usize) -> impl Strategy<Value = Config> {
-    let cer = prop_oneof![6 => (0u8..2, proptest::bool::weighted(0.8)).prop_map(|(cred, allow)| Cer::Assert { cred, allow }), 4 => (0u8..2).prop_map(|user| Cer::Register { user }), 1 => Just(Cer::RegisterExcluded)];
+    let cer = prop_oneof![6 => (0u8..2, proptest::bool::weighted(0.8)).prop_map(|(cred, allow)| Cer::Assert { cred, allow }), 4 => (0u8..2).prop_map(|user| Cer::Register { user }), 1 => Just(Cer::RegisterExcluded), 2 => (0u8..2).prop_map(|cred| Cer::AssertRefused { cred })];
     (prop_oneof![Just(Lock::ArcMutex), Just(Lock::ArcRwLock)], 0usize..3, proptest::collection::vec(0usize..4, 3), proptest::collection::vec(cer, 2..=max_tasks), prop_oneof![Just(5u32), Just(0), Just(1_000_000)]).prop_map(|(lock, store_yields, uv_yields, cers, counter)| Config { lock, store_yields, disc: (uv_yields.iter().sum::<usize>() % 3) as u8, uv_yields, cers, counter })
 }
 
 pub fn run(ctx: &mut Ctx) {
     let fs = ctx.first_shard();
-    ctx.rule = "2-3 authenticators share one Arc<Mutex<store>> / Arc<RwLock<store>> (inner store = MemoryStore behind a wrapper that suspends 0-2 times inside every call, so guards are held across suspensions); user validation suspends 0-3 times; ceremony sets {assert/assert same credential, assert/assert different credentials, assert/register, register/register same and different user, three-way mixes}. A schedule is the sequence of 'poll the k-th runnable ceremony' decisions; ALL schedules are enumerated for the fixed small configurations (DFS with prefix replay), larger ones get proptest-generated schedules. Non-trivial = schedule with at least one context switch between two unfinished ceremonies; distinct by (configuration, schedule).".into();
+    ctx.rule = "2-3 authenticators share one Arc<Mutex<store>> / Arc<RwLock<store>> (inner store = MemoryStore behind a wrapper that suspends 0-2 times inside every call, so guards are held across suspensions); user validation suspends 0-3 times; ceremony sets {assert/assert same credential, assert/assert different credentials, assert/register, register/register same and different user, an assertion the authenticator refuses after the user prompt next to a successful one on the same credential, three-way mixes}. A schedule is the sequence of 'poll the k-th runnable ceremony' decisions; ALL schedules are enumerated for the fixed small configurations (DFS with prefix replay), larger ones get proptest-generated schedules. Non-trivial = schedule with at least one context switch between two unfinished ceremonies; distinct by (configuration, schedule).".into();
     ctx.assumptions = vec![
         "the harness owns every suspension point (user validation and store calls suspend only through harness doubles), so a ceremony is deterministic given the poll order".into(),
         "deadlock = no ceremony woken while ceremonies are unfinished".into(),
@@ -482,6 +551,7 @@ pub fn run(ctx: &mut Ctx) {
         vec![Cer::Assert { cred: 0, allow: false }, Cer::Assert { cred: 0, allow: true }],
         vec![Cer::RegisterExcluded, Cer::Register { user: 0 }],
         vec![Cer::RegisterExcluded, Cer::Assert { cred: 0, allow: true }],
+        vec![Cer::AssertRefused { cred: 0 }, Cer::Assert { cred: 0, allow: true }],
     ];
     let max_uy = ctx.tier.pick(2usize, 4usize);
     for lock in [Lock::ArcMutex, Lock::ArcRwLock] {
